@@ -1,10 +1,135 @@
 import Dmn.Model.Sexp
+import Dmn.Model.ModelBuild
+import Dmn.Driver.C03
 
-/-! Driver handler for C12 — not implemented yet. -/
+/-!
+Driver handler for C12.
+
+* `(c12 dt <hitPolicy-attr> <aggregation-attr> <nIn> <nOut> ((<ni> <no>)…))` — a decision table
+  with `nIn` input and `nOut` named output clauses whose rule *k* has `ni` input entries (all
+  satisfied) and `no` output entries (all the number 1); every cell parses.
+  Answer: `(<build> <eval>)` with build = `ok` | `error` | `(panic site)` and eval the outcome of
+  `DT.evaluate` on the built table (`-` when the table does not build).
+* `(c12 graph (items…) (inputs…) (bkms…) (decisions…) (services…))` — requirement graph;
+  answer `(<build> (<decision id> <res>)… | (<bkm id> <res>)… | (<service id> <res>)…)` with
+  res = `ok` | `error` | `diverge`, fuel 64.
+-/
 
 namespace Dmn.Driver.C12
-open Dmn
+open Dmn Dmn.DT Dmn.MB
 
-def handle (_args : List Sexp) : String := "(error not-implemented)"
+def site (s : String) : String := (s.splitOn " ").headD ""
+
+def resStr : Res → String
+  | .ok => "ok" | .error => "error" | .diverge => "diverge"
+
+partial def itemOf : Sexp → Option Item
+  | .atom "simple" => some .simple
+  | .atom "collSimple" => some .collSimple
+  | .list [.atom "ref", n] => (Sexp.nat? n).map Item.ref
+  | .list [.atom "collRef", n] => (Sexp.nat? n).map Item.collRef
+  | .list (.atom "comp" :: cs) => (cs.mapM itemOf).map Item.comp
+  | .list (.atom "collComp" :: cs) => (cs.mapM itemOf).map Item.collComp
+  | _ => none
+
+def typeRefOf : Sexp → Option (Option TypeRef)
+  | .atom "none" => some none
+  | .atom "builtin" => some (some .builtin)
+  | .list [.atom "named", n] => (Sexp.nat? n).map (fun n => some (.named n))
+  | _ => none
+
+def optNat : Sexp → Option (Option Nat)
+  | .atom "none" => some none
+  | x => (Sexp.nat? x).map some
+
+def nats : Sexp → Option (List Nat)
+  | .list xs => xs.mapM Sexp.nat?
+  | _ => none
+
+def fuel : Nat := 64
+
+def handle (args : List Sexp) : String :=
+  match args with
+  | [.atom "dt", hp, agg, nIn, nOut, .list rules] =>
+    match Dmn.Driver.C03.attrOf hp, Dmn.Driver.C03.attrOf agg, Sexp.nat? nIn, Sexp.nat? nOut,
+        rules.mapM (fun (r : Sexp) => match r with
+          | Sexp.list [a, b] => do
+            let a ← Sexp.nat? a
+            let b ← Sexp.nat? b
+            pure (a, b)
+          | _ => none) with
+    | some hp, some agg, some nIn, some nOut, some rules =>
+      match parseHitPolicy hp agg with
+      | none => "(bad-hit-policy)"
+      | some p =>
+        let ts : TableS :=
+          ⟨List.replicate nIn ⟨true, none⟩, List.replicate nOut ⟨none, none, some true⟩,
+           rules.map (fun (a, b) => ⟨List.replicate a true, List.replicate b true⟩)⟩
+        match buildTable ts with
+        | .panic s => s!"((panic {site s}) -)"
+        | .error _ => "(error -)"
+        | .ok ps =>
+          let names := (List.range nOut).map (fun i => ("o" ++ toString (i + 1)).toList)
+          let t : Table :=
+            ⟨p, names, List.replicate nOut .none, List.replicate nOut .none,
+             ps.map (fun (a, b) => ⟨List.replicate a .t, List.replicate b (.num 1)⟩)⟩
+          s!"(ok {Dmn.Driver.C03.outcomeStr (evaluate t)})"
+    | _, _, _, _, _ => "(error bad-argument)"
+  | [.atom "graph", .list items, .list inputs, .list bkms, .list decisions, .list services] =>
+    let items? := items.mapM (fun (e : Sexp) => match e with
+      | Sexp.list [n, it] => do
+        let n ← Sexp.nat? n
+        let it ← itemOf it
+        pure (n, it)
+      | _ => none)
+    let inputs? := inputs.mapM (fun (e : Sexp) => match e with
+      | Sexp.list [n, t] => do
+        let n ← Sexp.nat? n
+        let t ← typeRefOf t
+        pure (⟨n, t⟩ : Input)
+      | _ => none)
+    let bkms? := bkms.mapM (fun (e : Sexp) => match e with
+      | Sexp.list [n, reqs, Sexp.list pts, vt] => do
+        let n ← Sexp.nat? n
+        let reqs ← nats reqs
+        let pts ← pts.mapM (fun p => do
+          let t ← typeRefOf p
+          t)
+        let vt ← typeRefOf vt
+        pure (⟨n, reqs, pts, vt⟩ : Bkm)
+      | _ => none)
+    let decisions? := decisions.mapM (fun (e : Sexp) => match e with
+      | Sexp.list [n, vt, kn, Sexp.list info] => do
+        let n ← Sexp.nat? n
+        let vt ← typeRefOf vt
+        let kn ← nats kn
+        let info ← info.mapM (fun (r : Sexp) => match r with
+          | Sexp.list [a, b] => do
+            let a ← optNat a
+            let b ← optNat b
+            pure (⟨a, b⟩ : InfoReq)
+          | _ => none)
+        pure (⟨n, vt, kn, info⟩ : Decision)
+      | _ => none)
+    let services? := services.mapM (fun (e : Sexp) => match e with
+      | Sexp.list [n, vt, a, b, c, d] => do
+        let n ← Sexp.nat? n
+        let vt ← typeRefOf vt
+        let a ← nats a
+        let b ← nats b
+        let c ← nats c
+        let d ← nats d
+        pure (⟨n, vt, a, b, c, d⟩ : Service)
+      | _ => none)
+    match items?, inputs?, bkms?, decisions?, services? with
+    | some items, some inputs, some bkms, some decisions, some services =>
+      let d : Defs := ⟨items, inputs, bkms, decisions, services⟩
+      let b := build d fuel
+      let ds := decisions.map (fun x => s!"({x.id} {resStr (evalDecision d fuel x.id)})")
+      let bs := bkms.map (fun x => s!"({x.id} {resStr (evalBkm d fuel x.id)})")
+      let ss := services.map (fun x => s!"({x.id} {resStr (evalService d fuel x.id)})")
+      s!"({resStr b} ({" ".intercalate ds}) ({" ".intercalate bs}) ({" ".intercalate ss}))"
+    | _, _, _, _, _ => "(error bad-argument)"
+  | _ => "(error bad-request)"
 
 end Dmn.Driver.C12
